@@ -195,65 +195,9 @@ def run():
                 continue
             c.nontriv((t['p'], lines[t['ci']][:200]))
             c.sample({'schedule': lines[t['ci']][:160], 'impl': r[:120], 'serial_order': okr[0]}, limit=3)
-        # ---- a query that is still running while two stores commit: paused inside the caller's screening callback
-        # (the first event it examines), two further events are stored - one belonging to the index range the query
-        # has already entered, one to a range it has not reached - then it resumes. Its answer must be the answer in
-        # ONE committed state: before both, between them, or after both (never the later store without the earlier).
-        X, Y = AUTHORS[0], AUTHORS[1]
-        scen2 = []
-        for rep_i in range(2 if Q else 12):
-            g = HistGen(rng, 'C14')
-            mk = lambda pk, kind, t, tags: g.new_event(kind=kind, pk=pk, t=t, tags=tags, content=b'c' * rng.choice([3, 200]))
-            tA, tB = [b't', b'a'], [b't', b'b']
-            fbase = dict(ids=[], authors=[], kinds=[], tags=[], since=None, until=None, limit=None)
-            shapes = [
-                ('akc-authors', dict(fbase, authors=[X, Y], kinds=[1]), (X, 1, [tA]), (X, 1, [tA]), (Y, 1, [tA])),
-                ('ac', dict(fbase, authors=[X, Y]), (X, 1, [tA]), (X, 7, [tA]), (Y, 1, [tA])),
-                ('akc-kinds', dict(fbase, authors=[X], kinds=[1, 7]), (X, 1, [tA]), (X, 1, [tA]), (X, 7, [tA])),
-                ('atc', dict(fbase, authors=[X, Y], tags=[[b't', b'a']]), (X, 1, [tA]), (X, 1, [tA]), (Y, 1, [tA])),
-                ('ktc', dict(fbase, kinds=[1, 7], tags=[[b't', b'a']]), (X, 1, [tA]), (Y, 1, [tA]), (X, 7, [tA])),
-                ('tc', dict(fbase, tags=[[b't', b'a', b'b']]), (X, 1, [tA]), (Y, 1, [tA]), (X, 1, [tB])),
-                # the ids plan: the listed ids are looked up one by one; an id passed over as absent and a later
-                # id must not be answered from different committed states
-                ('ids', None, (X, 1, [tA]), (Y, 1, [tA]), (X, 7, [tB])),
-            ]
-            for name, f, f0, ea, eb in shapes:
-                F0 = mk(f0[0], f0[1], 100, f0[2])
-                EA = mk(ea[0], ea[1], rng.choice([50, 150]), ea[2])
-                EB = mk(eb[0], eb[1], rng.choice([60, 160]), eb[2])
-                if name == 'ids':
-                    f = dict(fbase, ids=[EA['id'], F0['id'], EB['id']])
-                fnd = 'FND %s 1 0 0 m' % fl_tok(f)
-                pre = ['STO ' + ev_tok(F0)]
-                scen2.append(dict(name=name, pre=pre, point='screen:call', a=fnd,
-                                  b='SEQ STO %s ;; STO %s' % (ev_tok(EA), ev_tok(EB)), after=[fnd],
-                                  states=[pre, pre + ['STO ' + ev_tok(EA)], pre + ['STO ' + ev_tok(EA), 'STO ' + ev_tok(EB)]], fnd=fnd))
-        res2 = forced(c, base, scen2, tag='q')
-        # the answers in the three committed states (serial runs on the real store)
-        sl, spos = [], []
-        for k, s2 in enumerate(scen2):
-            for j, stl in enumerate(s2['states']):
-                sl += ['NEW %s -' % os.path.join(base, 'qs%d_%d' % (k, j))] + stl + [s2['fnd'], 'RMD']
-                spos.append(len(sl) - 2)
-        so2 = [strip_now(x) for x in c.worker.run(sl)]
-        for k, (s2, r2) in enumerate(zip(scen2, res2)):
-            if 'error' in r2 or 'HUNG' in r2.get('raw', '') or 'panic' in r2.get('raw', ''):
-                c.violation('oracle', 'running query vs two stores: schedule did not complete: %s' % (r2.get('error') or r2['raw'])[:90], r2['lines'])
-                continue
-            answers = [so2[spos[3 * k + j]] for j in range(3)]
-            c.count('spanning_query:%s:%s' % (s2['name'], 'reached' if r2['reached'] else 'not-reached'))
-            if r2['blocked']:
-                c.violation('oracle', 'two stores were blocked by a query paused in its screening callback', r2['lines'])
-                continue
-            if r2['after'][0] != answers[2]:
-                c.violation('oracle', 'after a query overlapped two stores the same query answers %s, serial: %s' % (r2['after'][0][:60], answers[2][:60]), r2['lines'])
-                continue
-            if r2['ra'] not in answers:
-                c.violation('oracle', 'a query (%s) that was running while two stores committed answered %s: that is the answer in no committed state (before: %s | between: %s | after: %s)' % (
-                    s2['name'], r2['ra'][:80], answers[0][:60], answers[1][:60], answers[2][:60]), r2['lines'])
-                continue
-            if r2['reached']:
-                c.nontriv(('spanning', s2['name'], k))
+        # ---- a query that is still running while two stores commit (shared with C05: lib/conc.spanning_queries)
+        from ..conc import spanning_queries
+        spanning_queries(c, base, nrep=2 if Q else 12)
         # ---- stores overlapping a store that is growing the map file: whatever returned Ok reads back whole (shared with C04 / C15)
         from ..conc import growth_step_races
         growth_step_races(c, base, nrep=1 if Q else 12)
